@@ -357,7 +357,18 @@ func (m *Model) RunResponse(s *Sink, rule string) {
 				continue
 			}
 			if k, ok := constOfValue(mu.Key); ok && k == "debugMode" {
-				if strings.HasSuffix(fieldPathOf(mu.Value), ".DebugMode") {
+				all := true
+				val := mu.Value
+				if mi, isMI := val.(*ssa.MakeInterface); isMI {
+					val = mi.X
+				}
+				vals := m.resolveUp(val, ep, 0) // a helper that builds the data gets the setting from errorPage
+				for _, v := range vals {
+					if !strings.HasSuffix(fieldPathOf(v), ".DebugMode") {
+						all = false
+					}
+				}
+				if all && len(vals) > 0 {
 					okDebug = true
 				}
 			}
